@@ -430,10 +430,41 @@ def norm(t, depth=0):
     return r
 
 
-def subterms(t, depth=0):
-    """all sub-terms (pre-order)"""
+def _children(t):
+    k = t[0]
+    if k in ("ref", "deref", "discr", "field", "downcast", "index", "repeat", "await"):
+        return [t[1]]
+    if k == "payload":
+        return [t[2]]
+    if k == "cast":
+        return [t[3]]
+    if k == "bin":
+        return [t[2], t[3]]
+    if k == "un":
+        return [t[2]]
+    if k == "call":
+        return ([t[1][1]] if isinstance(t[1], tuple) else []) + list(t[2])
+    if k == "agg":
+        return [v for _, v in t[3]]
+    if k == "phi":
+        return list(t[1])
+    return []
+
+
+def _subterms_pruned(t, depth, prune):
+    for c in _children(t):
+        yield from subterms(c, depth + 1, prune)
+
+
+def subterms(t, depth=0, prune=None):
+    """all sub-terms (pre-order); `prune(t)` true: t is yielded but not entered"""
     yield t
     if depth > 80:
+        return
+    if prune is not None:
+        if prune(t):
+            return
+        yield from _subterms_pruned(t, depth, prune)
         return
     k = t[0]
     if k in ("ref", "deref", "discr"):
